@@ -144,6 +144,40 @@ func HarnessBan() {
 	vh.Reach("end")
 }
 
+// HarnessBanOtherHost (C18): a ban of one host leaves the running bans of other hosts alone.
+// Host B has a running ban (ending 5 s or a day from now); host A is banned (A may have an entry
+// of its own, expired or running); afterwards B's entry is unchanged and B is still refused.
+func HarnessBanOtherHost() {
+	log := vh.Logger()
+	s := &server{log: log, p2pConfig: &config.P2PConfig{BanDuration: time.Hour}}
+	st := &peerState{inboundPeers: map[int32]*serverPeer{}, outboundPeers: map[int32]*serverPeer{}, persistentPeers: map[int32]*serverPeer{},
+		banned: map[string]time.Time{}, outboundGroups: map[string]int{}, connectionCount: map[string]int{}}
+	const other = "10.7.7.7"
+	t0 := vh.Now()
+	otherEnd := t0.Add(time.Duration([]int64{5, 86400}[vh.Choose(2)]) * time.Second)
+	st.banned[other] = otherEnd
+	switch vh.Choose(3) { // host A's own entry: none, expired, running
+	case 1:
+		st.banned[c18Host] = t0.Add(-5 * time.Second)
+	case 2:
+		st.banned[c18Host] = t0.Add(500 * time.Second)
+	}
+	sp := &serverPeer{Peer: peerpkg.HarnessPeerWith(log, vh.NondetBool("inbound"), c18Host+":8333", 1_000_000), server: s, log: log}
+
+	s.handleBanPeerMsg(st, sp.Peer)
+
+	t1 := vh.Now()
+	vh.Assume(t1.Unix()-t0.Unix() <= 1)
+	e, ok := st.banned[other]
+	vh.Assert("C18/ban-of-one-host-leaves-running-bans-of-others", ok && e.Unix() == otherEnd.Unix())
+	sp3 := &serverPeer{Peer: peerpkg.HarnessPeerWith(log, true, other+":8333", 1_000_002), server: s, log: log}
+	admitted := s.handleAddPeerMsg(st, sp3)
+	t2 := vh.Now()
+	vh.Assume(t2.Unix()-t1.Unix() <= 1)
+	vh.Assert("C18/banned-host-is-refused-while-the-ban-runs", !admitted && peerpkg.HarnessDisconnected(sp3.Peer))
+	vh.Reach("end")
+}
+
 var c18Hosts = []string{"10.1.2.3", "10.2.3.4"}
 
 // c18Consistent: the per-host counters count exactly the listed non-persistent peers of each
